@@ -55,9 +55,15 @@ def gen(rng, tier):
     fa["symbols"] = [s for s in fa["symbols"] if s in ("a", "b")] or ["a"]
     fa["trans"] = [t for t in fa["trans"] if t[1] is None or t[1] in ("a", "b")]
     fa["extra_symbols"] = []
+    if rng.chance(0.3):
+        # the regular operand accepts every word over {a, b}: the product is empty exactly when the grammar is, so the
+        # product construction is exercised on derivations that push and consume indices
+        q = fa["states"][0]
+        fa.update(states=[q], trans=[[q, "a", q], [q, "b", q]], starts=[q], finals=[q], symbols=["a", "b"],
+                  ghost_trans=None, ghost_final=None, ghost_start=None, eps_string_edge=None, extra_states=[])
     if rng.chance(0.1) and rules:
         rules.append(list(rng.pick(rules)))          # the same rule listed twice
-    int_idx = rng.chance(0.1)                        # index symbols that are ints, not strings
+    int_idx = rng.chance(0.25)                       # index symbols that are ints, not strings
     start = "S" if rng.chance(0.8) else rng.pick(nts)
     return {"rules": rules, "start": start, "int_idx": int_idx, "perm_seed": rng.getrandbits(30), "nperm": 12 if tier == "quick" else 60,
             "fa": GF.fix_kind(fa), "with_intersection": rng.chance(0.5) and len(rules) <= 6}
